@@ -29,8 +29,8 @@ META = {
     "design_ref": "DESIGN.md §7 C29",
 }
 
-QUICK_SNIPPETS, THOROUGH_SNIPPETS = 250, 100000
-QUICK_GEN, THOROUGH_GEN = 250, 5000
+QUICK_SNIPPETS, THOROUGH_SNIPPETS = 200, 100000
+QUICK_GEN, THOROUGH_GEN = 200, 5000
 QUICK_MUT, THOROUGH_MUT = 1500, 40000
 
 
@@ -399,7 +399,28 @@ def collect_programs(ctx):
     for i in range(ctx.n(QUICK_GEN, THOROUGH_GEN)):
         label, src = _bcgen.gen_program(ctx.rng, i)
         progs.append(("gen:" + label, src, None))
+    # deterministic operand-width boundary grid (both tiers): verified like every other program, and run below
+    progs += [(lab, src, None) for lab, src, exp in _bcgen.boundary_programs()]
     return progs
+
+
+def run_boundary_programs(ctx):
+    """the boundary grid is also executed: stdout must be the value the generator computed"""
+    bp = _bcgen.boundary_programs()
+    res = vlib.run_programs([{"id": "bw%d" % i, "src": src, "timeout_ms": 20000} for i, (lab, src, exp) in enumerate(bp)])
+    seen = set()
+    for (lab, src, exp), a in zip(bp, res):
+        ctx.stat("boundary-run:" + str(a.get("outcome")))
+        if a.get("outcome") == "rejected":
+            continue
+        if a.get("stdout") != exp:
+            cls = ":".join(lab.split(":")[:2])
+            if cls in seen:
+                continue
+            seen.add(cls)
+            ctx.violation("boundary-program-output", {"program": src, "sig": "output|" + lab, "expected": exp},
+                          "%s: outcome %s, stdout %r, expected %r %s" % (lab, a.get("outcome"), (a.get("stdout") or "")[:80], exp,
+                                                                          (a.get("panic") or a.get("err_msg") or "")[:120]))
 
 
 def _t(ctx, name, t0):
@@ -411,7 +432,11 @@ def run(ctx):
     t0 = vlib.time.time()
     ctx.rule = ("every BytecodeFunction (recursively through the constant pools) the real compiler emits for: the repo's Elk "
                 "sources (lib/, main.elk.test importing all *.elk.test), Elk snippets harvested from the Go test tables "
-                "(go/ast), generated programs (loops, closures, do/catch/finally, switch/patterns, generators, async, macros); "
+                "(go/ast), generated programs (loops, closures, do/catch/finally, switch/patterns, generators, async, macros), "
+                "a deterministic operand-width boundary grid (253..257 locals at top level / in methods / in closures x "
+                "do-catch, break/continue/return through finally, labelled break, call to a later method, closure over the "
+                "highest local; constant pools and upvalue counts crossing 255; long jumps) which is also executed and "
+                "compared with the value the generator computed; "
                 "each is judged by the Lean verifier (lax and strict handler semantics), the Python structural oracle and the "
                 "real Disassemble; plus byte-level mutants of real code for the decoder correspondence. distinct = distinct "
                 "function bytecode; non-trivial = function with at least 2 instructions")
@@ -569,6 +594,8 @@ def run(ctx):
                       "%d function(s): the shared `finally` epilogue is entered with different operand-stack depths "
                       "(flag-discriminated protocol of compileDo)" % poly_fin)
 
+    if not ctx.replay:
+        run_boundary_programs(ctx)
     t0 = _t(ctx, "classify+report", t0)
     # --- decoder correspondence: real code + byte-level mutants
     if not ctx.replay:
